@@ -12,11 +12,14 @@ vars == <<mode, code, msg, det>>
 \* s0: server stream, no message before the status (trailers-only); s0h: header set, no message;
 \* s1: one message before the status (headers, data, trailers)
 Modes == {"unary", "u0h", "s0", "s0h", "s1"}
+\* codes around the byte / 16-bit boundaries (a narrow accumulator in a grpc-status parser would wrap them)
+ByteEdgeCodes == {<<2,5,5>>, <<2,5,6>>, <<3,0,0>>, <<5,1,2>>, <<6,5,5,3,6>>}
 Codes == {<<0>>, <<1>>, <<2>>, <<5>>, <<1,3>>, <<1,6>>, <<1,7>>, <<9,9>>, MaxInt32,
-          <<2,1,4,7,4,8,3,6,4,8>>, <<4,2,9,4,9,6,7,2,9,5>>}
+          <<2,1,4,7,4,8,3,6,4,8>>, <<4,2,9,4,9,6,7,2,9,5>>} \cup ByteEdgeCodes
 Alphabet == {97, 37, 52, 49, 32, 126, 127, 31, 195, 169, 255, 128, 10}
 Extra == {<<195,169>>, <<195,40>>, <<37,52,49>>, <<37,37>>, <<37,71,49>>, <<226,130,172>>, <<226,130>>,
-          <<240,159,152,128>>, <<237,160,128>>, <<97,10,98>>, <<97,255,98>>, <<239,191,189>>}
+          <<240,159,152,128>>, <<237,160,128>>, <<97,10,98>>, <<97,255,98>>, <<239,191,189>>,
+          <<97,239,191,189,98>>, <<239,191,189,255>>}        \* a well-formed U+FFFD in the message stays what it is
 Msgs == UNION {[1..n -> Alphabet] : n \in 0..MsgLen} \cup Extra
 SV == "type.googleapis.com/google.protobuf.StringValue"
 DU == "type.googleapis.com/google.protobuf.Duration"
@@ -27,6 +30,7 @@ Dets == UNION {[1..n -> Atoms] : n \in 0..DetMax}
 \* Full = 0 (quick tier): detail lists of size 2 only with the codes 5 and 17
 Init == /\ mode \in Modes /\ code \in Codes /\ msg \in Msgs /\ det \in Dets
         /\ (Full = 1 \/ Len(det) <= 1 \/ code \in {<<5>>, <<1,7>>})
+        /\ (Full = 1 \/ code \notin ByteEdgeCodes \/ det = <<>> \/ det = <<AtomSeq[1]>>)
 Next == UNCHANGED vars
 S == [code |-> code, msg |-> msg, det |-> det]
 
